@@ -554,8 +554,8 @@ const (
 
 // Route is one way of building the document.
 type Route struct {
-	Kind     string `json:"kind"`  // json | map | gqlA | gqlB | colB
-	Order    []int  `json:"order"` // permutation of the field indexes (key order of the input)
+	Kind     string `json:"kind"`     // json | map | gqlA | gqlB | colB
+	Order    []int  `json:"order"`    // permutation of the field indexes (key order of the input)
 	Explicit []bool `json:"explicit"` // per field: a null value is written as null (true) or the key is omitted
 	Typing   int    `json:"typing,omitempty"`
 }
@@ -664,12 +664,17 @@ type docEnvT struct {
 }
 
 var (
-	docEnvOnce sync.Once
-	docEnv     *docEnvT
+	docEnvMu sync.Mutex
+	docEnv   *docEnvT
 )
 
 func getDocEnv() *docEnvT {
-	docEnvOnce.Do(func() {
+	docEnvMu.Lock()
+	defer docEnvMu.Unlock()
+	if docEnv != nil {
+		return docEnv
+	}
+	func() {
 		e := &docEnvT{}
 		ident := make([]int, len(docFields))
 		rev := make([]int, len(docFields))
@@ -708,15 +713,18 @@ func getDocEnv() *docEnvT {
 			e.rootsDisagree = fmt.Sprintf("node A: root %s version %s; node B: root %s version %s", e.defA.Schema.Root, e.defA.Version.VersionID, e.defB.Schema.Root, e.defB.Version.VersionID)
 		}
 		docEnv = e
-	})
+	}()
 	return docEnv
 }
 
 func closeDocEnv() {
+	docEnvMu.Lock()
+	defer docEnvMu.Unlock()
 	if docEnv != nil {
 		docEnv.a.Close()
 		docEnv.b.Close()
 		docEnv.c.Close()
+		docEnv = nil
 	}
 }
 
@@ -1051,7 +1059,13 @@ func runDoc(c DocCase) (out docOutcome) {
 	}
 
 	// D3: the id depends on every field value and on the schema root
-	plain := Route{Kind: "json"}
+	// (built through the map route: the values are handed over exactly, no text parser in between)
+	plain := Route{Kind: "map"}
+	exact := runRoute(e, c.Vals, plain)
+	if exact.err != "" {
+		fail(hx.Failf("C13/doc/route-error/map", "assignment rejected: %s\n input: %s", exact.err, jsonDoc(c.Vals, plain)))
+		return out
+	}
 	mi := c.Mut % len(docFields)
 	mvals := append([]V{}, c.Vals...)
 	kind := docFields[mi].Kind
@@ -1068,10 +1082,10 @@ func runDoc(c DocCase) (out docOutcome) {
 	out.mutatedKind, out.mutation = kind, how
 	m := runRoute(e, mvals, plain)
 	if m.err != "" {
-		fail(hx.Failf("C13/doc/route-error/json-mutated", "mutated assignment rejected: %s\n input: %s", m.err, jsonDoc(mvals, plain)))
+		fail(hx.Failf("C13/doc/route-error/map-mutated", "mutated assignment rejected: %s\n input: %s", m.err, jsonDoc(mvals, plain)))
 		return out
 	}
-	if m.id == base.id {
+	if m.id == exact.id {
 		sig := fmt.Sprintf("C13/doc/docid-ignores-change/%s/%s", kindClass(kind), how)
 		if _, nillable, isArr := elemKind(kind); isArr && nillable && len(mvals[mi].A) == len(c.Vals[mi].A) && !c.Vals[mi].Null {
 			// diagnoser: an array with nillable elements changed without changing its length
